@@ -100,3 +100,12 @@ Proof.
     + rewrite IH. unfold render at 1. rewrite flat_map_app. fold (render a) (render b).
       rewrite <- app_assoc. tauto.
 Qed.
+
+(* ---- finite floats: exponent field (bits 52..62) not all ones ---- *)
+Definition fin (bits : N) : bool := negb ((bits / 4503599627370496) mod 2048 =? 2047).
+
+(* the laws of strconv the round-trip theorems assume about the two oracles
+   (validated Go-against-Go by every generated document of the check) *)
+Definition oracle_ok (fmt : N -> str) (prs : str -> option N) : Prop :=
+  (forall b, fin b = true -> prs (fmt b) = Some b) /\          (* ParseFloat (FormatFloat x 'f' -1) = x *)
+  (forall b, fin b = true -> plain_number (fmt b) = true).      (* 'f' format: -?digits[.digits] *)
